@@ -55,6 +55,8 @@ fn worker(args: &[String]) -> i32 {
     let budget: f64 = arg(args, "--budget-s").and_then(|s| s.parse().ok()).unwrap_or(30.0);
     let out_path = arg(args, "--out").expect("--out");
     let det_every: u64 = arg(args, "--det-every").and_then(|s| s.parse().ok()).unwrap_or(40);
+    // determinism campaign (tools/determinism.py): one line per case with everything a run produces
+    let mut hashes_out = arg(args, "--hashes").map(|p| std::io::BufWriter::new(std::fs::File::create(p).expect("--hashes file")));
     let Some(def) = find(id) else {
         eprintln!("unknown check {id}");
         return 2;
@@ -88,6 +90,11 @@ fn worker(args: &[String]) -> i32 {
         let mut ctx = CaseCtx::new(id, &tier, cs);
         let out = (def.case)(&mut ctx);
         cases += 1;
+        if let Some(w) = hashes_out.as_mut() {
+            use std::io::Write;
+            let vs: Vec<String> = out.violations.iter().map(|v| v.class()).collect();
+            let _ = writeln!(w, "{} {:x} {:x} {:x} {} {} {:?}", index, vsim::rng::mix(&ctx.log_hashes), out.outcome_hash, ctx.sched_hash, ctx.runs, ctx.steps, vs);
+        }
         runs += ctx.runs;
         sim_time_us += ctx.sim_time_us;
         steps += ctx.steps;
